@@ -107,6 +107,7 @@ func H_C10_Claim() {
 	// INV-S preserved
 	rt.Assert("INV.last=now", st.LastOutflowTime.Equal(now))
 	rt.Assert("INV.stream", invStreamOf(st, nowNs))
+	rt.Assert("C12.cancellable-agreement-unchanged", st.Cancellable)
 }
 
 // maxTimeNs: the latest instant protobuf can encode (9999-12-31T23:59:59Z), in ns.
@@ -160,6 +161,7 @@ func H_C10_TopUp() {
 	rt.Assert("C10.escrow-backed", rt.IntEq(se.Bank.Bal(se.Escrow, "nund"), rt.IntAdd(st.Deposit.Amount, pre.Other)))
 	rt.Assert("C10.released-paid", rt.IntEq(rt.IntAdd(se.Bank.Bal(pre.Receiver, "nund"), se.Bank.Bal(se.FeeColl, "nund")), released))
 	rt.Assert("INV.stream", invStreamOf(st, nowNs))
+	rt.Assert("C12.cancellable-agreement-unchanged", st.Cancellable)
 	rt.Assert("INV.rate-unchanged", st.FlowRate == pre.Rate)
 	rt.Assert("C11.topup-flow-clock", rt.IntEq(rt.TimeNanos(st.LastOutflowTime), rt.IteInt(expired, nowNs, pre.Last)))
 }
@@ -204,6 +206,7 @@ func H_C10_Update() {
 	// (an empty stream has nothing flowing: its clock is restarted by the next top-up instead)
 	rt.Assert("C11.update-restarts-flow-clock", rt.Implies(rt.IntLt(sdk.ZeroInt(), pre.Deposit), st.LastOutflowTime.Equal(now)))
 	rt.Assert("INV.stream", invStreamOf(st, nowNs))
+	rt.Assert("C12.cancellable-agreement-unchanged", st.Cancellable)
 }
 
 // H_C10_Cancel: one CancelStream step.
@@ -287,4 +290,5 @@ func H_C10_Create() {
 	rt.Assert("C10.sender-debited", rt.IntEq(se.Bank.Bal(send, "nund"), rt.IntSub(senderBal, dep)))
 	rt.Assert("C10.escrow-backed", rt.IntEq(se.Bank.Bal(se.Escrow, "nund"), rt.IntAdd(dep, other)))
 	rt.Assert("INV.stream", invStreamOf(st, nowNs))
+	rt.Assert("C12.cancellable-agreement-unchanged", st.Cancellable)
 }
